@@ -97,6 +97,42 @@ CHECKS.update({
    technique="Lean 4 theorems about a hand-written graph model + differential correspondence + DOT/duality/lookup oracles"),
 })
 
+CHECKS.update({
+ "C07": dict(category="proof",
+   text="PARTIAL PROOF. Proved about the port of TransformModuleFilesToModel for every list of files (each given as name, text and the outcome of its parse; hypothesis FilesWF = what the listener guarantees about parsed files, evaluated by the driver on every input): the merge succeeds IF AND ONLY IF every file parsed as a module, no type is defined twice, no condition is defined twice, every 'extend type' targets a type defined in some file and no relation name is contributed twice to one type (merge_ok_iff_conflict_free); otherwise the result is a non-empty error list, never a model and never a panic (merge_never_partial, merge_no_panic); the result carries the requested schema version (merge_schema). Not proved: conservation (the result is exactly the attributed union, GetModuleForObjectTypeRelation) and that every error names the offending file - evaluated on the real code against the source model the files were split from. The port is tied to the code by correspondence on generated module sets with 0-3 injected conflicts of seven kinds.",
+   design_ref="DESIGN.md §6.7", note=PROOF_NOTE,
+   technique="Lean 4 theorems (iff characterisation of success) about a hand-written port of the merger + differential correspondence + conservation/attribution oracles"),
+ "C10": dict(category="proof",
+   text="PARTIAL PROOF. Proved about the port of the construction half of the weighted graph builder, for every model on which it succeeds: node labels are unique; among the direct and TTU edges of a node no two share target, kind and tupleset label; every edge's condition list is non-empty, repetition-free and never contains the empty name; every restriction of a direct assignment has its direct edge carrying its condition and nothing else is added (direct_assignment_complete / _sound); a tuple-to-userset yields a TTU edge labelled type#tupleset to parent#computed for every parent type (ttu_complete); operators and computed usersets append exactly one edge; construction is append-only, so operands appear in source order and the subtract operand's edges come last (construction_append_only, exclusion_subtract_last). 'Never modifies the model' holds by construction in the port and is an oracle on the code. The port is tied to the code by comparing the node list and per-node ordered edge lists of every generated model, plus an independent edge oracle.",
+   design_ref="DESIGN.md §6.10", note=PROOF_NOTE,
+   technique="Lean 4 theorems (structural invariants, completeness/soundness of edge construction) about a hand-written port + differential correspondence + independent edge oracle"),
+ "C12": dict(category="proof",
+   text="PARTIAL PROOF. Proved about the port of the merger for every list of files and every permutation of it (hypothesis FilesWF as in C07): the permuted list merges successfully iff the original does, and a set that fails fails in every order with a non-empty error list and no model (verdict_order_independent, failure_order_independent, from the iff of C07 and the symmetry of the conflict-freedom predicate). Determinism across invocations holds by construction in the port (maps are sorted lists) and is established of the code by the repeated-call oracle. Not proved: on success a permutation changes only the order of type definitions; the error list of a permuted input is a permutation of the original - evaluated on the real code over all permutations of up to four files.",
+   design_ref="DESIGN.md §6.12", note=PROOF_NOTE,
+   technique="Lean 4 theorems (order independence of the verdict) about a hand-written port of the merger + repeated-call and all-permutations oracles + differential correspondence"),
+})
+
+SPEC_TECH = "differential check of the real code (public Build + hooked forced traversal orders) against an executable Lean 4 specification + Lean theorems about that specification + property oracles"
+CHECKS.update({
+ "C04": dict(category="translation_validation",
+   text="The Go weight assignment is NOT ported and no theorem is about it: every accepted real build (public Build, and through the hook every enumerated/sampled DFS start order) is compared node by node with the executable Lean specification of weights (Spec/Weights.lean), and the edge rule, absence of R# placeholders and of empty maps are evaluated on the real graph. Lean theorems (Props/C04.lean, kernel-checked on every run) show that the specification has the shape the property states: on every graph where the iteration reached a fixed point (evaluated per input by the driver) the weight map of each node is its strategy over its edges - edge = target (+1 saturating for hops, {T:1} into terminals), union/relation = pointwise max, intersection = common keys with max, exclusion = base keys with max - and an accepted graph has no empty map. Inputs matching the open finding KF-C04-operand-grouping are recognised by an ungrouped variant of the specification that the code must then equal exactly.",
+   design_ref="DESIGN.md §6.4", note=TV_NOTE, technique=SPEC_TECH),
+ "C05": dict(category="translation_validation",
+   text="The real verdict under every enumerated/sampled depth-first start order is compared with the Lean well-foundedness specification; the error class must be one of the three sentinels. The Go algorithm is not ported. Lean theorems (Props/C05.lean) about the specification: accepted iff no node on a rewrite-only cycle, no intersection/exclusion on any cycle and every node reaches a terminal type (accepted_means); a graph containing a rewrite-only cycle is rejected whatever else it contains (rewrite_only_cycle_never_passes); the cycle test is sound (cycle_flag_sound).",
+   design_ref="DESIGN.md §6.5", note=TV_NOTE, technique=SPEC_TECH),
+ "C11": dict(category="translation_validation",
+   text="Real wildcard lists of every node and edge, under every forced traversal order, must equal the specification's reachable-public-types sets exactly, have no duplicates, and every edge must equal its target ({T} into T:*). The Go propagation is not ported. Lean theorems (Props/C11.lean) about the specification: every listed type is a T:* restriction reachable by following edges (wildcard_set_sound), no duplicates (wildcard_set_no_duplicates), nothing reachable => empty (no_wildcard_reachable_empty); completeness of the fuelled search is not proved.",
+   design_ref="DESIGN.md §6.11", note=TV_NOTE, technique=SPEC_TECH),
+})
+
+CHECKS.update({
+ "C08": dict(category="proof",
+   text="PARTIAL PROOF. Proved about the listener port (Go's nil dereferences, nil-map writes and empty-stack accesses explicit) for every parse tree of any shape and size: if the tree is scoped - a decidable containment discipline (callbacks that dereference the current condition/relation/type occur only below the node that sets it, rewrite nodes carry their label, state-resetting nodes are not nested) which the driver evaluates on every real parse tree of the fuzzing stream - the walk cannot panic, from the initial state or any state meeting the invariant (walk_no_panic, transform_no_panic, walk_keeps_invariant); and for every tree whatsoever, an ANTLR-reported syntax error always makes the transformation return an error list and never a model (syntax_error_is_reported). The port is tied to the code by walking the real, also error-recovered, parse trees of fuzzed inputs and comparing panic / error list / model. NOT proved and decided by search only: that ANTLR's error recovery yields only scoped trees (counted per run), absence of panics in printer, merger, graph builders, yaml/protojson paths (degenerate protobuf values and mutated corpus inputs under recover()), and the work bound (watchdog + scaling probe; one open finding).",
+   design_ref="DESIGN.md §6.8",
+   note="fuzzing and the scaling probe are search, not proof; ANTLR runtime, yaml.v3, protojson are parameters",
+   technique="Lean 4 theorem (no-panic invariant over all scoped trees) about a hand-written listener port + differential correspondence on real error-recovered parse trees + panic/timeout oracles under mutation fuzzing (search)"),
+})
+
 NOT_YET = {}
 
 def main():
